@@ -34,7 +34,11 @@ ASSUMPTIONS = [
     "are tampered but not asserted",
     "verifier panics on length-tampered proofs (shplonk/fflonk index out of range) are counted as rejections and listed in the notes, not reported as violations",
     "known finding F15 (SHPLONK/fflonk claimed values not bound to the transcript): the adaptive joint-shift forgery class is excluded from the asserting "
-    "generators while listed in known_findings.json; the probe TestC17a_ProbeF15 re-observes it on every run",
+    "generators while listed in known_findings.json; the probe TestC17a_ProbeF15 re-observes it on every run. The exclusion is pinned: the excluded object "
+    "must satisfy the verifier's relation in the exponent, only its verdict is tolerated, and the same shift with the compensation off by one is asserted to be "
+    "rejected (class adaptive_shift_miscompensated); every other forgery is decided by the exact relation oracle as before",
+    "SameRatioMany: a group in which no slice starts with a non-zero element is rejected whatever the argument order (the function documents and checks "
+    "'need a nonzero representative in both groups'); otherwise acceptance = the bilinear same-ratio relation",
 ]
 
 def _kind(name, run, q, t, **kw):
@@ -57,4 +61,17 @@ JOBS = (
 
 # classes that every (complete) run must populate
 MANDATORY = ["history:key_object_reloaded"] + ["history:key_object_reloaded:" + s for s in (
-    "pedersen_vk", "pedersen_pk", "shplonk_srs", "fflonk_srs", "shplonk_proof", "fflonk_proof", "mpcsetup_proof", "kzg_mpcsetup")]
+    "pedersen_vk", "pedersen_pk", "shplonk_srs", "fflonk_srs", "shplonk_proof", "fflonk_proof", "mpcsetup_proof", "kzg_mpcsetup")] + [
+    # SameRatioMany: zero / identity substitutions per slice and per whole group, every argument order, the documented guard
+    "srm_sub:" + s for s in ("zero_first_one_g1_slice", "zero_first_one_g2_slice", "zero_first_all_g1", "zero_first_all_g2",
+                             "all_infinity_one_g1_slice", "all_infinity_one_g2_slice", "all_infinity_all_g1", "all_infinity_all_g2",
+                             "all_infinity_both_groups")] + [
+    "srm_order:all_g1_before_g2", "srm_order:all_g2_before_g1", "srm_order:interleaved", "srm_no_nonzero_first_element_in_a_group",
+    # degenerate (identity) sides through UpdateProof.Verify and through the public kzg.MpcSetup.Verify path
+    "forgery:identity_first_of_each_next_slice", "forgery:identity_all_g2_next", "forgery:identity_all_g1_next", "forgery:identity_all_prev",
+    "forgery:identity_all_prev_and_next",
+    "forgery:g2_all_infinity_g1_arbitrary", "forgery:g2_starts_with_infinity_g1_arbitrary", "forgery:degenerate_prev_g2_all_infinity_g1_arbitrary",
+    "forgery:g1_all_infinity",
+    # the neighbour of the known-finding class F15 that must stay rejected
+    "adaptive_shift_miscompensated",
+]
